@@ -6,6 +6,7 @@
 #include <fcppt/container/buffer/append_from.hpp>
 #include <fcppt/container/buffer/append_from_opt.hpp>
 #include <fcppt/container/buffer/object.hpp>
+#include <fcppt/container/dynamic_array.hpp>
 #include <fcppt/container/buffer/read_from.hpp>
 #include <fcppt/container/buffer/read_from_opt.hpp>
 #include <fcppt/container/buffer/to_raw_vector.hpp>
@@ -928,8 +929,108 @@ void read_chars_cases()
     }
 }
 
+// ------------------------------------------------------------------ read_from / read_from_opt / dynamic_array
+// A buffer made by read_from(size, f): f sees a write area of exactly `size` elements, the read area is what f
+// reports (0..size), the raw_vector made from it has exactly these elements; the ledger is balanced afterwards.
+void read_from_cases()
+{
+  std::string const e = "buffer::read_from";
+  if (!vf::entry_enabled(e))
+    return;
+  vf::set_entry(e);
+  using B = fcppt::container::buffer::object<int, ledger_alloc<int>>;
+  unsigned idx = 0;
+  for (unsigned size = 0; size <= 12; ++size)
+    for (unsigned written = 0; written <= size; ++written)
+      for (unsigned mode = 0; mode < 3; ++mode, ++idx)
+      {
+        if (!vf::mine(idx))
+          continue;
+        if (!vf::begin_case("size=%u written=%u mode=%u", size, written, mode))
+          continue;
+        vf::note_distinct(vf::hash_mix(vf::hash_mix(size, written), mode + 77));
+        ledger_t led;
+        g_ledger = &led;
+        {
+          unsigned seen_size = ~0U;
+          auto const fill = [&](int *p, std::size_t n) {
+            seen_size = static_cast<unsigned>(n);
+            for (std::size_t i = 0; i < n; ++i) // the whole write area must be writable
+              p[i] = static_cast<int>(1000 + i);
+          };
+          std::vector<int> expect;
+          for (unsigned i = 0; i < written; ++i)
+            expect.push_back(static_cast<int>(1000 + i));
+          auto const judge = [&](B &&b, char const *what) {
+            if (seen_size != size)
+              vf::violation(e + "/write-area-size", "mismatch", std::string(what) + ": the function saw " + std::to_string(seen_size) + " for size " + std::to_string(size));
+            if (b.read_size() != written || std::vector<int>(b.begin(), b.end()) != expect)
+              vf::violation(e + "/read-area", "mismatch", std::string(what) + ": read area differs from what the function reported");
+            auto rv = fcppt::container::buffer::to_raw_vector(std::move(b));
+            if (std::vector<int>(rv.begin(), rv.end()) != expect || rv.capacity() < rv.size())
+              vf::violation(e + "/to_raw_vector", "mismatch", std::string(what) + ": raw_vector differs from the read area");
+          };
+          if (mode == 0)
+          {
+            VF_COUNT("buf/read_from");
+            judge(fcppt::container::buffer::read_from<B>(size, [&](int *p, std::size_t n) -> std::size_t { fill(p, n); return written; }), "read_from");
+          }
+          else if (mode == 1)
+          {
+            VF_COUNT("buf/read_from_opt/success");
+            auto r = fcppt::container::buffer::read_from_opt<B>(size, [&](int *p, std::size_t n) { fill(p, n); return fcppt::optional::object<std::size_t>{written}; });
+            if (!r.has_value())
+              vf::violation(e + "/read_from_opt/spurious-nothing", "mismatch", "the function reported a size but nothing was returned");
+            else
+              judge(std::move(r.get_unsafe()), "read_from_opt");
+          }
+          else
+          {
+            VF_COUNT("buf/read_from_opt/failure");
+            auto r = fcppt::container::buffer::read_from_opt<B>(size, [&](int *p, std::size_t n) { fill(p, n); return fcppt::optional::object<std::size_t>{}; });
+            if (r.has_value())
+              vf::violation(e + "/read_from_opt/spurious-value", "mismatch", "the function reported failure but a buffer was returned");
+          }
+        }
+        g_ledger = nullptr;
+        if (!led.live.empty())
+          vf::violation(e + "/ledger/leak", "mismatch", std::to_string(led.live.size()) + " allocation(s) still live");
+        if (led.bad_dealloc)
+          vf::violation(e + "/ledger/bad-deallocate", "mismatch", "deallocate of unknown pointer or wrong size");
+      }
+  // dynamic_array: exactly one allocation of `size` elements, all of [data, data_end) usable, released with the same size
+  std::string const d = "container::dynamic_array";
+  vf::set_entry(d);
+  for (unsigned size = 0; size <= 40; ++size, ++idx)
+  {
+    if (!vf::mine(idx))
+      continue;
+    if (!vf::begin_case("size=%u", size))
+      continue;
+    vf::note_distinct(vf::hash_mix(size, 4242));
+    VF_COUNT("dynamic_array/sizes");
+    ledger_t led;
+    g_ledger = &led;
+    {
+      fcppt::container::dynamic_array<pod24, ledger_alloc<pod24>> a{size};
+      auto const &ca = a;
+      if (a.size() != size || a.data_end() - a.data() != static_cast<std::ptrdiff_t>(size) || ca.data() != a.data() || ca.data_end() != a.data_end())
+        vf::violation(d + "/extent", "mismatch", "size()/data()/data_end() disagree for size " + std::to_string(size));
+      for (pod24 *p = a.data(); p != a.data_end(); ++p)
+        *p = pod24{};
+      if (led.live.size() != 1 || led.live.begin()->second != size)
+        vf::violation(d + "/allocation", "mismatch", "not exactly one allocation of size elements");
+    }
+    g_ledger = nullptr;
+    if (!led.live.empty() || led.bad_dealloc)
+      vf::violation(d + "/ledger", "mismatch", "leak or deallocate with a wrong pointer/size");
+  }
+}
+
 void body()
 {
+  for (char const *b : {"buf/read_from", "buf/read_from_opt/success", "buf/read_from_opt/failure", "dynamic_array/sizes"})
+    vf::require_bucket(b);
   for (char const *b :
        {"rv/ctor/default", "rv/ctor/count", "rv/ctor/forward-range", "rv/ctor/input-range", "rv/ctor/initializer-list",
         "rv/ctor/rep", "rv/push_back/inplace", "rv/push_back/realloc", "rv/push_back_alias/realloc", "rv/pop_back",
@@ -956,6 +1057,7 @@ void body()
   buffer_histories<int>(hist);
   buffer_histories<unsigned char>(hist / 4);
   read_chars_cases();
+  read_from_cases();
 }
 }
 
